@@ -542,6 +542,7 @@ where
 
         let mut log: Vec<(usize, u64)> = vec![];
         let n_elements_backup = self.n_elements;
+        let table_backup = self.table.clone();
         let mut i1: usize = 0;
         for (counter, f) in other.table.iter().enumerate() {
             // calculate current bucket
@@ -553,7 +554,8 @@ where
             if f != 0 {
                 let i2 = i1 ^ other.hash(&f);
                 if let Err(err) = self.insert_internal(f, i1, i2, &mut log) {
-                    self.restore_state(&log);
+                    // the log only covers evictions, not writes to free slots
+                    self.table = table_backup;
                     self.n_elements = n_elements_backup;
                     return Err(err);
                 }
